@@ -25,6 +25,10 @@ GroupRows(a) == LET RECURSIVE sm(_)
 
 Clauses ==
   IF C.outcome = 2 THEN {"C18_internal_error"}
+  ELSE IF C.removed THEN
+     \* a feature is left out (with a warning, before its values are looked at) only when none of its
+     \* values reaches min_freq
+     Flag(\A v \in 1..M : Rare(C.cnt[v], C.mf, C.n), "C18_feature_dropped_although_a_value_is_frequent")
   ELSE IF C.nunknown > 0 /\ C.policy = "raise" THEN Flag(C.outcome = 1, "C18_unknown_value_not_refused")
   ELSE IF C.outcome = 1 THEN {"C18_spurious_rejection"}
   ELSE
